@@ -52,6 +52,7 @@ func RunSQ(p SQPlan) (v hk.Verdict) {
 		mu        sync.Mutex
 		delivered = make([][]int, p.Keys)
 		holding   = map[int]int{}
+		releasing int // items taken and not yet released (Release has returned)
 		problems  []string
 		ndeliv    int
 	)
@@ -75,6 +76,7 @@ func RunSQ(p SQPlan) (v hk.Verdict) {
 
 					mu.Lock()
 					holding[k]++
+					releasing++
 
 					if holding[k] > 1 {
 						problems = append(problems, fmt.Sprintf("key %d handed out to two workers at once", k))
@@ -89,11 +91,16 @@ func RunSQ(p SQPlan) (v hk.Verdict) {
 						time.Sleep(time.Duration(h) * time.Microsecond)
 					}
 
+					// exclusion is judged on what lies between taking and releasing; idleness only ends after the release
 					mu.Lock()
 					holding[k]--
 					mu.Unlock()
 
 					it.Release()
+
+					mu.Lock()
+					releasing--
+					mu.Unlock()
 				}
 			}
 		}()
@@ -125,11 +132,7 @@ func RunSQ(p SQPlan) (v hk.Verdict) {
 
 	for {
 		mu.Lock()
-		busy := 0
-		for _, h := range holding {
-			busy += h
-		}
-
+		busy := releasing
 		n := ndeliv
 		mu.Unlock()
 
@@ -158,6 +161,28 @@ func RunSQ(p SQPlan) (v hk.Verdict) {
 		}
 
 		time.Sleep(200 * time.Microsecond)
+	}
+
+	// a machine under load may have descheduled a worker between taking an item and recording it: before judging, give
+	// every key whose last delivery is not the last value put two more seconds to catch up (a lost value never arrives)
+	for grace := time.Now().Add(2 * time.Second); time.Now().Before(grace); time.Sleep(time.Millisecond) {
+		mu.Lock()
+		complete := true
+
+		for _, vals := range delivered {
+			if len(vals) == 0 || vals[len(vals)-1] != p.Puts {
+				complete = false
+			}
+		}
+
+		if releasing > 0 {
+			complete = false
+		}
+		mu.Unlock()
+
+		if complete {
+			break
+		}
 	}
 
 	// idle workers wait on Get: whatever the queue still counts is not pending for anybody
